@@ -338,18 +338,18 @@ Qed.
 (* a narrower range found from (b, e): forward choice keeps the begin, rearward choice the end *)
 Lemma ps_next_point_inv d fuel : forall p b e b' e', dict_ok d ->
   ps_next_point dops d fuel p b e = Ok (Some (b', e')) ->
-  b' < e' /\ e' <= clen (ps_com p) /\ b <= b' /\ e' <= e /\ (if ps_fwd p then b' = b else e' = e).
+  b' < e' /\ e' <= clen (ps_com p) /\ b <= b' /\ e' <= e /\ (if ps_fwd p then b' = b else e' = e) /\ e' - b' < e - b.
 Proof.
   induction fuel as [|k IH]; intros p b e b' e' Hd H; cbn [ps_next_point] in H; [discriminate|].
   destruct (ps_fwd p) eqn:Ef.
   - destruct (Nat.eqb e 0); [discriminate|]. destruct (Nat.eqb b (e - 1)); [discriminate|].
     destruct (ps_range_has dops d p b (e - 1)) as [[|]| | |] eqn:Er; try discriminate.
     + inv_ok H. destruct (ps_range_has_lt _ _ _ _ Hd Er). repeat split; lia.
-    + destruct (IH _ _ _ _ _ Hd H) as (A & B & C & E & F). rewrite Ef in F. repeat split; lia.
+    + destruct (IH _ _ _ _ _ Hd H) as (A & B & C & E & F & G). rewrite Ef in F. repeat split; lia.
   - destruct (Nat.eqb (S b) e); [discriminate|].
     destruct (ps_range_has dops d p (S b) e) as [[|]| | |] eqn:Er; try discriminate.
     + inv_ok H. destruct (ps_range_has_lt _ _ _ _ Hd Er). repeat split; lia.
-    + destruct (IH _ _ _ _ _ Hd H) as (A & B & C & E & F). rewrite Ef in F. repeat split; lia.
+    + destruct (IH _ _ _ _ _ Hd H) as (A & B & C & E & F & G). rewrite Ef in F. repeat split; lia.
 Qed.
 
 (* a wider range: forward choice grows the end up to the break point after the origin, rearward
@@ -455,7 +455,7 @@ Proof.
   induction fuel as [|k IH]; intros p p' Hd Hp H; cbn [ps_jump_last] in H; [discriminate|].
   destruct (ps_next_selection_point dops d p) as [[[b e]|]| | |] eqn:En; try discriminate.
   - assert (Hq : ps_ok (ps_with_range p b e)).
-    { unfold ps_next_selection_point in En. destruct (ps_next_point_inv _ _ _ _ _ _ _ Hd En) as (A & B & C & E & F).
+    { unfold ps_next_selection_point in En. destruct (ps_next_point_inv _ _ _ _ _ _ _ Hd En) as (A & B & C & E & F & _).
       apply ps_ok_narrower; assumption. }
     destruct (IH _ _ Hd Hq H) as (Hok & Hc). split; [exact Hok | exact Hc].
   - inv_ok H. split; [assumption | reflexivity].
@@ -1046,7 +1046,7 @@ Proof.
   intros I [H|[H|[H|H]]]; (eapply with_phrase_sel_inv; [exact I| |exact H]); intros pg act p p' Hp Hf;
   destruct I as [[W Dk] _].
   - bind_ok Hf r Hr. destruct r as [[b0 e0]|]; inv_ok Hf.
-    unfold ps_next_selection_point in Hr. destruct (ps_next_point_inv _ _ _ _ _ _ _ Dk Hr) as (A & B & C & E & F).
+    unfold ps_next_selection_point in Hr. destruct (ps_next_point_inv _ _ _ _ _ _ _ Dk Hr) as (A & B & C & E & F & _).
     split; [apply ps_ok_narrower; assumption | reflexivity].
   - bind_ok Hf r Hr. destruct r as [[b0 e0]|]; inv_ok Hf.
     unfold ps_prev_selection_point in Hr. destruct (ps_prev_point_inv _ _ _ _ _ _ _ Dk Hr) as (A & B & F).
